@@ -40,11 +40,12 @@ pub struct TargetCfg {
     pub elf_files: usize,
     pub fds: usize,
     pub stack_pages_max: u64,
+    pub null_sp_threads: usize,
 }
 
 impl Default for TargetCfg {
     fn default() -> Self {
-        TargetCfg { sentinels: 3, max_spinners: 2, heartbeats: 0, sleepers: 0, exiters: 0, names: true, regions: 3, elf_files: 0, fds: 0, stack_pages_max: 8 }
+        TargetCfg { sentinels: 3, max_spinners: 2, heartbeats: 0, sleepers: 0, exiters: 0, names: true, regions: 3, elf_files: 0, fds: 0, stack_pages_max: 8, null_sp_threads: 0 }
     }
 }
 
@@ -144,6 +145,9 @@ pub fn build_target(rng: &mut Rng, cfg: &TargetCfg) -> Result<Scenario, String> 
         let shape = StackShape { pages, sp_offset: sp_off, ..Default::default() };
         let name = if cfg.names { Some(random_name(rng)) } else { None };
         b.sentinel(rng, mode, &shape, name, None);
+    }
+    for _ in 0..cfg.null_sp_threads {
+        b.sentinel(rng, Mode::Pause, &StackShape { pages: 0, sp_offset: 0, ..Default::default() }, Some(b"nullsp".to_vec()), None);
     }
     for _ in 0..cfg.heartbeats {
         let name = if cfg.names { Some(random_name(rng)) } else { None };
